@@ -36,7 +36,7 @@ Definition kind_class (k : tok_kind) : tcl :=
       | KWhile => CKw KwWhile | KEndWhile => CKw KwEndWhile
       | KRepeat => CKw KwRepeat | KUntil => CKw KwUntil | KEndRepeat => CKw KwEndRepeat
       | KExit => CKw KwExit | KReturn => CKw KwReturn
-      | KEndFunctionBlock | KEndProgram | KEndFunction | KFunctionBlock | KProgram => CKw KwEndPou      (* the keywords at the boundaries of units *)
+      | KEndFunctionBlock | KEndProgram | KEndFunction | KFunctionBlock | KProgram | KFunction => CKw KwEndPou      (* the keywords at the boundaries of units *)
       | KBool => CBoolT
       | KHash => CHash
       | KPeriod => CDot
@@ -214,7 +214,10 @@ Fixpoint units (fuel n : nat) (acc : list unit_) (ts : list token) : lres :=
   | S n' =>
       match parse_unit fuel (st_skip ts) with
       | UOk u r => units fuel n' (acc ++ [u]) r
-      | UFail => LOk acc ts
+      | UFail => match st_skip ts with
+                 | t :: _ => if kind_eqb (t_kind t) KFunction then LScope else LOk acc ts   (* functions: the model below *)
+                 | [] => LOk acc ts
+                 end
       | UScope => LScope
       | UFuel => LFuel
       end
@@ -235,9 +238,56 @@ Definition parse_lib_tokens (toks : list token) : outcome3 :=
 Definition is_int_ty (t : token) : bool :=
   match t_kind t with KSint | KInt | KDint | KLint | KUsint | KUint | KUdint | KUlint => true | _ => false end.
 
-Inductive elem := ETypes (l : list tdecl) | EUnit (u : unit_).
+(* function_declaration: FUNCTION _ name _ ':' _ (elementary type / name) _ (io_var_declarations / function_var_decls) ** _ _
+   statement_list _ END_FUNCTION.  The statement list is required (at least a ';'). *)
+Record func_ := mkFunc { fn_name : text; fn_ret : text; fn_decls : list ditem; fn_body : list stmt }.
+Inductive fres := FOk (f : func_) (rest : list token) | FFail | FScope | FFuel.
+Definition parse_function (fuel : nat) (ts : list token) : fres :=
+  match ts with
+  | kw :: r =>
+      if kind_eqb (t_kind kw) KFunction then
+        match st_skip r with
+        | nm :: r1 =>
+            if kind_eqb (t_kind nm) KIdentifier then
+              match next_is token tok_class is_colon r1 with
+              | Some r2 =>
+                  match st_skip r2 with
+                  | t :: r3 =>
+                      match (if is_type (tok_class t) then Some (ty_name t)
+                             else match tok_class t with CId => Some (t_text t) | _ => None end) with
+                      | Some rt =>
+                          match fblocks token tok_class t_text tok_num ty_name fuel [] (st_skip r3) with
+                          | DOk (ds, rb) =>
+                              match plist token tok_class t_text tok_num op_level fuel (st_skip rb) with
+                              | Ok (l, r4) =>
+                                  match st_skip r4 with
+                                  | e :: r5 => if kind_eqb (t_kind e) KEndFunction then FOk (mkFunc (t_text nm) rt ds l) r5 else FFail
+                                  | [] => FFail
+                                  end
+                              | Fail => FFail
+                              | Panic => FFail
+                              | OutOfFuel => FFuel
+                              end
+                          | DFail => FFail
+                          | DScope => FScope
+                          | DFuel => FFuel
+                          end
+                      | None => FFail
+                      end
+                  | [] => FFail
+                  end
+              | None => FFail
+              end
+            else FFail
+        | [] => FFail
+        end
+      else FFail
+  | [] => FFail
+  end.
+
+Inductive elem := ETypes (l : list tdecl) | EUnit (u : unit_) | EFunc (f : func_).
 Inductive l2res := L2Ok (es : list elem) (rest : list token) | L2Scope | L2Fuel.
-(* library_element_declaration: data_type_declaration / function_block_declaration / program_declaration *)
+(* library_element_declaration: data_type_declaration / function_declaration / function_block_declaration / program_declaration *)
 Fixpoint elements (fuel n : nat) (acc : list elem) (ts : list token) : l2res :=
   match n with
   | O => L2Fuel
@@ -247,11 +297,17 @@ Fixpoint elements (fuel n : nat) (acc : list elem) (ts : list token) : l2res :=
       | DScope => L2Scope
       | DFuel => L2Fuel
       | DFail =>
-          match parse_unit fuel (st_skip ts) with
-          | UOk u r => elements fuel n' (acc ++ [EUnit u]) r
-          | UFail => L2Ok acc ts
-          | UScope => L2Scope
-          | UFuel => L2Fuel
+          match parse_function fuel (st_skip ts) with
+          | FOk f r => elements fuel n' (acc ++ [EFunc f]) r
+          | FScope => L2Scope
+          | FFuel => L2Fuel
+          | FFail =>
+              match parse_unit fuel (st_skip ts) with
+              | UOk u r => elements fuel n' (acc ++ [EUnit u]) r
+              | UFail => L2Ok acc ts
+              | UScope => L2Scope
+              | UFuel => L2Fuel
+              end
           end
       end
   end.
